@@ -522,13 +522,15 @@ PAIRS = [
     ("defmacro/macro-call", "(defmacro {a} [] 11)\n(setv zq_r ({b}))", 11),
     ("local-defmacro/macro-call", "(defn zq_g [] (defmacro {a} [] 11) ({b}))\n(setv zq_r (zq_g))", 11),
     ("require-as/macro-call", "(require zq_macmod [zq_m :as {a}])\n(setv zq_r ({b}))", 11),
+    ("require-prefix/dotted-macro-call", "(require zq_macmod :as {a})\n(setv zq_r ({b}.zq_m))", 11),
+    ("require-prefix/dotted-macro-call-mangled-macro", "(require zq_macmod :as {a})\n(setv zq_r ({b}.zq-m2))", 11),
     ("setv-rename/variable", "(setv {a} (defn zq_g [] 11))\n(setv zq_r ((do {b})))", 11),
 ]
 
 
 def install_macmod(hy):
     src = types.ModuleType("zq_macmod")
-    src._hy_macros = {"zq_m": lambda: 11}
+    src._hy_macros = {"zq_m": lambda: 11, "zq_m2": lambda: 11}
     sys.modules["zq_macmod"] = src
 
 
@@ -661,6 +663,9 @@ def run_pairs(chk, env, names, per_name):
                     if pid.startswith("class-attr") and hy.mangle(a).startswith("__"):
                         # Python's own class-private renaming and special methods
                         chk.count("filtered:python-class-private-or-special-name")
+                        continue
+                    if "dotted-macro-call" in pid and not (readable_dotted(hy, b + ".zq_m", "zq_m") and "." not in b):
+                        chk.count("filtered:not-readable-as-dotted-part")
                         continue
                     if "macro-call" in pid and (hy.mangle(b) in core and not eq):
                         chk.count("filtered:reference-is-a-core-macro")
